@@ -2,22 +2,7 @@
    Only ExtrOcamlBasic is used: bool, option, unit, list, prod, sumbool, sumor map to the
    OCaml types of the same name; nat, N, positive, Z stay the extracted inductive types. *)
 From Coq Require Extraction ExtrOcamlBasic.
-From MH Require Import model.ConnSpec model.OneShot model.ConnImpl model.Router.
+From MH Require Import run.Run.
 
 Extraction Language OCaml.
-
-Definition m_dec := dec.
-Definition m_utf8_valid := utf8_valid.
-Definition m_trim := trim.
-
-Extraction "model.ml"
-  utf8_valid trim dec decZ containsb
-  parse_method raw_method parse_version raw_version parse_media media_str raw_status all_status
-  raw_header abs_path uri_try_from
-  parse_header_line headers_try_from headers_default encoding_try_from parse_reqline
-  request_try_from
-  parse_stream feed runT step
-  conn_new set_payload_max_size try_read try_write clear_write_buffer enqueue_response
-  pending_write pop_parsed_request
-  response_new apply_op build serialize write_all
-  routes_new add_route handle_http_request.
+Extraction "model.ml" run_case.
